@@ -328,8 +328,14 @@ func (f *FieldCopyToGenerator) genListOrMap() *j.Statement {
 					)
 				}
 
+				// A by-value element of a message without fields is never read
+				elem := "a"
+				if (f.Kind == ObjectListKind || f.Kind == ObjectMapKind) && f.getValueField().Message.IsEmpty && !f.IsNullable {
+					elem = "_"
+				}
+
 				// for k, a := range obj.List
-				g.For(j.List(j.Id("k"), j.Id("a"))).Op(":=").Range().Id(fieldName).BlockFunc(func(g *j.Group) {
+				g.For(j.List(j.Id("k"), j.Id(elem))).Op(":=").Range().Id(fieldName).BlockFunc(func(g *j.Group) {
 					if (f.Kind == PrimitiveListKind) || (f.Kind == PrimitiveMapKind) {
 						f.genPrimitiveBody("a", g)
 					} else {
